@@ -227,6 +227,24 @@ pub fn run(p: &[String]) -> Vec<String> {
                 None => vec![hex("<dropped>")],
             }
         }
+        // ---- C18
+        "convert_date" => {
+            let v: Vec<i32> = p[1..7].iter().map(|x| x.parse::<i32>().unwrap()).collect();
+            vec![format!("{:?}", umya_spreadsheet::helper::date::convert_date(v[0], v[1], v[2], v[3], v[4], v[5]))]
+        }
+        "date_roundtrip" => {
+            use chrono::{Datelike, Timelike};
+            let v: Vec<i32> = p[1..7].iter().map(|x| x.parse::<i32>().unwrap()).collect();
+            let s = umya_spreadsheet::helper::date::convert_date(v[0], v[1], v[2], v[3], v[4], v[5]);
+            let dt = umya_spreadsheet::helper::date::excel_to_date_time_object(&s, None);
+            vec![dt.year().to_string(), dt.month().to_string(), dt.day().to_string(), dt.hour().to_string(), dt.minute().to_string(), dt.second().to_string()]
+        }
+        "serial_to_date" => {
+            use chrono::{Datelike, Timelike};
+            let n = p[1].parse::<f64>().unwrap();
+            let dt = umya_spreadsheet::helper::date::excel_to_date_time_object(&n, None);
+            vec![dt.year().to_string(), dt.month().to_string(), dt.day().to_string(), dt.hour().to_string(), dt.minute().to_string(), dt.second().to_string()]
+        }
         // ---- C19
         "straight" => {
             // value pattern decimals thousands
